@@ -256,16 +256,22 @@ func (a String) M__iadd__(other Object) (Object, error) {
 	return a.M__add__(other)
 }
 
-func (a String) M__mul__(other Object) (Object, error) {
+func (a String) M__mul__(other Object) (res Object, err error) {
 	if b, ok := convertToInt(other); ok {
-		if b < 0 {
-			b = 0
+		if b <= 0 || len(a) == 0 {
+			return String(""), nil
 		}
-		var out bytes.Buffer
-		for i := 0; i < int(b); i++ {
-			out.WriteString(string(a))
+		const maxInt = int(^uint(0) >> 1)
+		if b > Int(maxInt/len(a)) {
+			return nil, ExceptionNewf(OverflowError, "repeated string is too long")
 		}
-		return String(out.String()), nil
+		// A result which is too long to allocate panics in make
+		defer func() {
+			if r := recover(); r != nil {
+				res, err = nil, ExceptionNewf(MemoryError, "repeated string is too long")
+			}
+		}()
+		return String(strings.Repeat(string(a), int(b))), nil
 	}
 	return NotImplemented, nil
 }
